@@ -1,6 +1,6 @@
 """C07 — BIP-44/49/84/86/CIP-1852 level discipline holds for every call sequence."""
 import itertools
-from harness.core import Case
+from harness.core import Case, HarnessError
 from harness.canon import hx
 from harness.props.bip44_common import IMPL, FAM
 from harness.props.bip32_common import rand_seed, IDX_EDGE
@@ -87,6 +87,189 @@ def gen(rng, tier):
                     depth = 3 + FAM[fam][2].GetConfig(FAM[fam][1][m]).DefaultPath().count("/")
             seq.append(op)
         yield Case("bip44", [fam, m, "-", hx(rand_seed(rng)), ",".join(seq)], "history")
+
+
+class _Tree:
+    """a history over SEVERAL live objects of one wallet: every hierarchy operation may be applied to any object obtained so far (not only
+    to the latest one), any number of times, and the in-place conversion to public-only to any of them. Each object carries its *lineage*:
+    the linear operation sequence that produced it (the operations of its ancestors as they stood when the next link was derived, then
+    its own conversion) — the 'successful sequence' of the statement, whose result must be the plain derivation the model computes."""
+
+    def __init__(self, fam, mem, seed, eager=True):
+        self.fam, self.mem, self.seed = fam, mem, seed
+        self.eager = eager          # look at every object as soon as it is returned / converted (otherwise only at the end of the history)
+        self.cls, en, _ = FAM[fam]
+        self.coin = en[mem]
+        self.objs, self.lin, self.story, self.checks, self.derived = [], [], [], [], []
+        self.objs.append(self.cls.FromSeed(seed, self.coin))
+        self.lin.append([])
+
+    def observe(self, i, when):
+        """what object #i shows now next to what its lineage demands (compared with the model reply for the lineage afterwards)"""
+        from harness.props.bip44_common import b44_out, level_defect
+        from harness.canon import exc_kind
+        try:
+            bad = level_defect(self.objs[i])
+            got = ("err LevelIsNotDepth " + bad) if bad else "ok " + b44_out(self.objs[i])
+        except Exception as ex:  # noqa
+            got = "err %s while reading the keys of the object" % exc_kind(ex)
+        self.checks.append((tuple(self.lin[i]), got, "object #%d %s" % (i, when), len(self.story)))
+
+    def apply(self, i, op):
+        """apply `op` to object #i; returns the number of the resulting object (i itself for the in-place conversion), None when refused"""
+        from harness.props.bip44_common import apply_op
+        from harness.canon import exc_kind
+        try:
+            o = apply_op(self.cls, self.coin, self.objs[i], op)
+        except Exception as ex:  # noqa   the same refusal is demanded of the linear sequence
+            self.story.append("%s on #%d refused" % (op, i))
+            self.checks.append((tuple(self.lin[i] + [op]), "err " + exc_kind(ex), "operation %s on object #%d" % (op, i), len(self.story)))
+            return None
+        if op == "N":
+            self.lin[i] = self.lin[i] + ["N"]
+            self.story.append("N on #%d" % i)
+            if self.eager:
+                self.observe(i, "right after its conversion")
+            return i
+        self.objs.append(o)
+        self.lin.append(self.lin[i] + [op])
+        j = len(self.objs) - 1
+        self.story.append("#%d = %s on #%d" % (j, op, i))
+        self.derived.append((i, op))
+        if self.eager:
+            self.observe(j, "when it was returned")
+        return j
+
+    def depth(self, i):
+        return int(self.objs[i].Bip32Object().Depth())
+
+    def finish(self):
+        for i in range(len(self.objs)):
+            self.observe(i, "at the end of the history")
+
+
+def _next_op(rng, depth):
+    return [PATH[0], PATH[1], "A%d" % rng.choice(IDX_EDGE[:3] + [rng.getrandbits(31)]), "X%d" % rng.randrange(2),
+            "I%d" % rng.choice(IDX_EDGE[:3] + [rng.getrandbits(31)])][depth]
+
+
+def _directed_trees(rng, fam, mem, seed, eager):
+    """for every level: the same operation with the same argument twice on ONE parent object, with something done in between to the first
+    result (converted in place, derived from) or to the parent (converted in place); then a further step from every result"""
+    for k in range(5):
+        for pattern in ("child-converted", "parent-converted", "child-used", "default-path"):
+            if pattern == "default-path" and k not in (0, 3):
+                continue
+            t = _Tree(fam, mem, seed, eager)
+            p = 0
+            for d in range(k):
+                p = t.apply(p, _next_op(rng, d))
+            if p is None:
+                continue
+            if pattern == "default-path":
+                c1 = t.apply(0, "D")
+                if c1 is not None:
+                    t.apply(c1, "N")
+                c2 = t.apply(0, "D")
+                if k == 3:             # ... and the account object converted between two walks below it
+                    x1 = t.apply(p, "X0")
+                    t.apply(p, "N")
+                    x2 = t.apply(p, "X0")
+                    for x in (x1, x2):
+                        if x is not None:
+                            t.apply(x, "I0")
+                t.finish()
+                yield t
+                continue
+            op = _next_op(rng, k)
+            c1 = t.apply(p, op)
+            if pattern == "child-converted" and c1 is not None:
+                t.apply(c1, "N")
+            elif pattern == "parent-converted":
+                t.apply(p, "N")
+            elif c1 is not None and k < 4:
+                t.apply(c1, _next_op(rng, k + 1))
+            c2 = t.apply(p, op)
+            for c in (c1, c2):
+                if c is not None and k < 4:
+                    g = t.apply(c, _next_op(rng, k + 1))
+                    if g is not None and pattern != "child-used":
+                        t.apply(g, "N")
+            t.finish()
+            yield t
+
+
+def _random_tree(rng, fam, mem, seed, steps, ops):
+    t = _Tree(fam, mem, seed, rng.random() < 0.5)
+    for _ in range(steps):
+        r = rng.random()
+        if t.derived and r < 0.35:                 # an earlier call again: same object, same argument
+            i, op = rng.choice(t.derived)
+        else:
+            i = rng.randrange(len(t.objs)) if rng.random() < 0.5 else len(t.objs) - 1
+            d = t.depth(i)
+            if r < 0.75 and d < 5:
+                op = _next_op(rng, d)
+            elif r < 0.9:
+                op = "N"
+            else:
+                op = rng.choice(ops)
+        t.apply(i, op)
+    t.finish()
+    return t
+
+
+def relations(rng, tier, rpt):
+    """'after ANY successful sequence … its keys equal plain derivation … public-only objects exist only from account level down' with the
+    sequence read per OBJECT: hierarchy operations applied to any live object of a wallet, repeatedly and with in-place conversions to
+    public-only in between (see _Tree). Every object, when returned and again at the end, must show exactly what the compiled Lean model
+    returns for the object's own linear lineage — its state is a function of the calls that produced it, not of what else was done to its
+    parent, its siblings or an earlier result of the same call."""
+    from harness.core import run_driver
+    bad = []
+    mem = members()
+    by_curve = {}
+    for fam, m in mem:
+        cls, en, getter = FAM[fam]
+        by_curve.setdefault((fam == "Cip1852", getter.GetConfig(en[m]).Bip32Class().__name__), []).append((fam, m))
+    trees = []
+    groups = sorted(by_curve)
+    directed = [rng.choice(by_curve[g]) for g in (groups if tier == "thorough" else rng.sample(groups, min(2, len(groups))))]
+    directed.append(rng.choice([x for x in mem if x[0] != "Cip1852" and FAM[x[0]][2].GetConfig(FAM[x[0]][1][x[1]]).Bip32Class().__name__.endswith("Secp256k1")]))
+    for fam, m in directed:
+        sd, st = rand_seed(rng), rng.getstate()
+        trees += list(_directed_trees(rng, fam, m, sd, True))
+        rng.setstate(st)           # the same histories once more, every object looked at only at the end
+        trees += list(_directed_trees(rng, fam, m, sd, False))
+    ops = edge_ops()
+    for _ in range(20 if tier == "quick" else 400):
+        fam, m = mem[rng.randrange(len(mem))]
+        trees.append(_random_tree(rng, fam, m, rand_seed(rng), rng.randrange(4, 14), ops))
+    lines = {}
+    for t in trees:
+        for lin, got, what, upto in t.checks:
+            lines.setdefault("bip44 %s %s - %s %s" % (t.fam, t.mem, hx(t.seed), ",".join(lin) or "-"), None)
+    order = sorted(lines)
+    for l, m in zip(order, run_driver(order)):
+        lines[l] = m
+    n = 0
+    for t in trees:
+        for lin, got, what, upto in t.checks:
+            n += 1
+            line = "bip44 %s %s - %s %s" % (t.fam, t.mem, hx(t.seed), ",".join(lin) or "-")
+            want = lines[line]
+            if want.startswith("bad-"):
+                raise HarnessError("driver rejected request %r: %s" % (line, want))
+            if got != want and not want.startswith("err OracleMiss"):
+                bad.append({"property": "C07", "entry_point": "%s.%s: operations on several live objects of one wallet" % (t.fam, t.mem), "request_lines": [line],
+                            "relation": "an object does not show the plain derivation of the operation sequence that produced it (%s); the request line is "
+                                        "that sequence applied to a fresh object, for which model and implementation agree" % what,
+                            "input": "%s.FromSeed(%s, %s) = #0; %s" % (t.fam, t.seed.hex(), t.mem, "; ".join(t.story[:upto])),
+                            "impl_output": got, "model_output": want, "no_failing_input": False})
+                break
+    rpt.extra["object_tree_history_checks"] = n
+    rpt.extra["object_tree_histories"] = len(trees)
+    return bad[:6]
 
 
 def search_broken(broken, rng):
